@@ -118,6 +118,11 @@ CLAIMED = {
    note=TB + 'Values are a universal tree with Z atoms; borrowed payloads are modelled by the values they point to.',
    technique="Coq model of both template families (short proof) + both real code paths executed against the model on generated crates",
    design="5/C05"),
+ 'C15': dict(
+   text="Machine-checked proof (Coq): the setter model (assign field i; return what the field's diff strategy reports from the old to the new value) stores exactly the given value and touches no other field, returns exactly the entry the full diff would contain for that field (absent iff the strategy sees no change), and for ANY sequence of setter calls replaying the returned entries in order on any value equivalent to the initial one yields a value equivalent to the final one (setters_replay, an instance of the follower theorem over all back ends). Tie: struct shapes are compiled against /repo with the generated_setters feature (struct-level `setters`, per-field `setter` opt-in, `skip_setter`, custom `setter_name`), random call sequences are executed, and per call the returned entry, the value afterwards and the final replay are compared with the model; the oracle checks the property on /repo's output. A declaration whose expansion does not compile is bisected to a minimal shape and reported as the failing input.",
+   note=TB + "The key-and-value recursive map strategy generates no setter (by design of the macro) and is excluded. Found and repaired defect D3 (fix: commit df32b44). The attribute decision table (setters / setter / skip_setter / setter_name) is mirrored by the generator's deterministic plan and checked by compiling and calling exactly the planned setters.",
+   technique="Coq proof (setter = assign + field diff; replay as instance of the follower theorem) + differential execution of generated setters",
+   design="5/C15"),
 }
 NA_REASON = "check not wired into the manifest yet at this commit (build in progress; see DESIGN.md section 5 for the planned theorem and tie)"
 
